@@ -705,6 +705,72 @@ func genFuncs() string {
 			fail("%s: addJitter body changed; the rational jitter model no longer applies:\n%s", rel, src(aj.Body))
 		}
 
+		// parseRequestIDs: which proxy replies to the list call count as failures (the polling loop backs off exactly on those)
+		{
+			pr := mustFunc(f, rel, "", "parseRequestIDs")
+			knownInts["http.StatusOK"] = 200
+			tp := &tctx{pkg: "utils", env: collectConsts(f), where: rel + ":parseRequestIDs",
+				subst: map[string]string{"response.StatusCode": "status", "len(responseBytes)": "bodyLen"}}
+			classify := func(r *ast.ReturnStmt) string {
+				if len(r.Results) != 2 {
+					tp.bad(r, "return arity")
+				}
+				if src(r.Results[1]) == "nil" {
+					return "false"
+				}
+				if src(r.Results[0]) == "nil" {
+					return "true"
+				}
+				tp.bad(r, "return shape")
+				return ""
+			}
+			var lines []string
+			readErrSeen := false
+			done := false
+			for _, st := range pr.Body.List {
+				switch x := st.(type) {
+				case *ast.AssignStmt, *ast.DeclStmt:
+					continue
+				case *ast.IfStmt:
+					if x.Else != nil || len(x.Body.List) != 1 {
+						tp.bad(x, "if shape")
+					}
+					r, ok := x.Body.List[0].(*ast.ReturnStmt)
+					if !ok {
+						tp.bad(x, "if body")
+					}
+					cond := ""
+					switch {
+					case x.Init != nil && strings.Contains(src(x.Init), "json.Unmarshal(responseBytes, &requests)") && src(x.Cond) == "err != nil":
+						cond = "jsonErr"
+					case x.Init == nil && src(x.Cond) == "err != nil" && !readErrSeen:
+						cond = "readErr"
+						readErrSeen = true
+					case x.Init == nil:
+						cond = tp.expr(x.Cond)
+					default:
+						tp.bad(x, "if initialiser")
+					}
+					lines = append(lines, "  if "+cond+" then", "    return "+classify(r))
+				case *ast.ReturnStmt:
+					lines = append(lines, "  return "+classify(x))
+					done = true
+				default:
+					tp.bad(st, "statement")
+				}
+			}
+			if !done {
+				fail("%s: parseRequestIDs has no final return", rel)
+			}
+			emitDef(&sb, "utils_parseRequestIDsFails (readErr : Bool) (status : Int) (bodyLen : Int) (jsonErr : Bool) : Bool", lines, rel+" parseRequestIDs: true = the list call is reported as failed (error returned)")
+			lp := src(mustFunc(f, rel, "", "ListPendingRequests").Body)
+			for _, need := range []string{"proxyResp, err := client.Do(proxyReq)\n\tif err != nil {\n\t\treturn nil, fmt.Errorf(", "return parseRequestIDs(proxyResp, metricHandler)"} {
+				if !strings.Contains(lp, need) {
+					fail("%s: ListPendingRequests no longer contains %q", rel, need)
+				}
+			}
+		}
+
 		sk := mustFunc(f, rel, "bufferedReadSeeker", "Seek")
 		t = &tctx{pkg: "utils", env: collectConsts(f), ret: "option", where: rel + ":Seek",
 			subst: map[string]string{"io.SeekStart": "0", "int64(len(b.buf))": "bufLen", "len(b.buf)": "bufLen", "b.writeHead": "writeHead",
